@@ -121,7 +121,14 @@ def judgeObservation (K : Content) (cexp : List (Nat × Bytes)) (impl : List Str
 
 def enc := sjisSub.enc
 
+/-- Every string of the case is encodable (the property's domain). -/
+def inDomain (K : Content) (cstr : List (Bytes × List Nat)) : Bool :=
+  K.strings.all (fun p => (enc p.2).isSome) && K.labels.all (fun p => p.2.all (fun n => (enc n).isSome))
+    && cstr.all (fun p => (enc p.1).isSome)
+
 def oracleSer (e : Endian) (K : Content) (cstr : List (Bytes × List Nat)) (impl : List String) : String :=
+  if !inDomain K cstr then
+    (if impl.getD 1 "" == "panic" then "FAIL panic" else "ok skip (unencodable string)") else
   if impl.getD 1 "" != "ok" then "FAIL serialize did not succeed on an in-domain archive" else
   match (fieldOf impl "img").bind bytesOfHex with
   | none => "FAIL no image"
